@@ -62,8 +62,6 @@ def judge(c, res):
     sig = None
     if r['exit'][1] != 0 or r['exit'][0] not in ('return', 'exit'):
         why, sig = 'run against a healthy device ends with %r\n%s' % (r['exit'], r['out'][-300:]), 'exit'
-    elif 'done!' not in r['out']:
-        why, sig = 'run does not announce completion: %r' % r['out'][-200:], 'exit'
     elif dev.violations:
         v = dev.violations[0]
         why = 'device-side invariant broken: %s (%d in total)' % (v, len(dev.violations))
@@ -126,7 +124,7 @@ def run(tier):
                 '+ {-1,0,1}, size - {0,1,...}, drawn; content PRNG(seed) with 0x00/0xff tails; per-operation busy schedules of 0-4 dfuDNBUSY answers '
                 'with poll delays 0..2^24-1 ms, delays on non-busy answers, device initially in dfuERROR) with a virtual clock owned by the harness%s. '
                 'oracle: flash[0:len] == image, rest of last page 0x00, all other pages untouched; erase-before-write, addresses inside flash, '
-                'no request before a requested delay elapsed, DNLOAD only after the previous operation was polled to completion; exit 0 and done!. '
+                'no request before a requested delay elapsed, DNLOAD only after the previous operation was polled to completion; exit status 0. '
                 'non-trivial = run with >= 1 busy poll and a length that is not a multiple of 1024 or exactly the flash size; distinct by parameter tuple'
                 % ('; plus every length 0..16384 on the 16 KiB variant' if tier == 'thorough' else ''))
     chk.assumptions = ['vlib/dfusim.py models DFU 1.1 + DfuSe (erase 0x41, set address 0x21, block write wValue=2) as the GD32 boot loader implements them']
